@@ -45,6 +45,7 @@ type (
 		Vars   []string
 		Body   Expr
 		Pats   []Expr
+		Alts   [][]Expr // further alternative pattern groups: {a, b} {c}
 	}
 )
 
@@ -489,11 +490,32 @@ func (p *parser) primary() (Expr, error) {
 					return nil, err
 				}
 			}
+			var alts [][]Expr
+			for p.isOp("{") {
+				p.next()
+				var g []Expr
+				for {
+					pe, err := p.iff()
+					if err != nil {
+						return nil, err
+					}
+					g = append(g, pe)
+					if p.isOp(",") {
+						p.next()
+						continue
+					}
+					break
+				}
+				if err := p.expect("}"); err != nil {
+					return nil, err
+				}
+				alts = append(alts, g)
+			}
 			body, err := p.iff()
 			if err != nil {
 				return nil, err
 			}
-			return EQuant{t.v == "forall", vars, body, pats}, nil
+			return EQuant{t.v == "forall", vars, body, pats, alts}, nil
 		}
 		return EIdent{t.v}, nil
 	case "op":
@@ -546,6 +568,7 @@ type FuncContract struct {
 	Returns  []string
 	Clauses  []Clause
 	Modifies []string
+	ModFresh []string // subset of Modifies written only in objects allocated during the call ("modifies fresh X")
 	Ghosts   []Clause // ghost NAME = expr evaluated at entry
 	Oracle   string   // Go boolean expression for replay
 	Counters [][2]string // ghost call counters: name, source-text prefix
@@ -794,6 +817,10 @@ func (cs *Contracts) parse(path, data string) error {
 			case "modifies":
 				for _, a := range strings.Split(body, ",") {
 					if a = strings.TrimSpace(a); a != "" {
+						if strings.HasPrefix(a, "fresh ") {
+							a = strings.TrimSpace(a[6:])
+							cur.ModFresh = append(cur.ModFresh, a)
+						}
 						cur.Modifies = append(cur.Modifies, a)
 					}
 				}
